@@ -21,8 +21,11 @@ theorem lemma_enter_active (fl : Bool) (s : St) (a : ExcId) (h : s.active = some
 theorem lemma_enter_reraise (fl : Bool) (s : St) : (enter (Sre.init fl) s).reraise = fl := by
   unfold enter capture; cases s.active <;> simp [Sre.init]
 
-theorem lemma_mkFilter (bound : Bool) (p : Pred) : (mkFilter bound p).shouldIgnore = p.eval := by
-  cases bound <;> rfl
+theorem lemma_mkFilter (form : FilterForm) (p : Pred) : (mkFilter form p).shouldIgnore = p.eval := by
+  cases form <;> rfl
+
+theorem lemma_mkFilter_eq (form : FilterForm) (p : Pred) : mkFilter form p = ⟨p.eval⟩ := by
+  cases form <;> rfl
 
 theorem lemma_force_excInfo (c : Sre) (s : St) : (force c s).1.excInfo = s.excInfo := by
   obtain ⟨rr, ty, v, tb⟩ := c
@@ -297,7 +300,7 @@ theorem sre_force_raises_saved (caught : Bool) (c : Sre) (s : St) (v : ExcId) (h
     *not* `E0` (id 0) but a new object (id 1) of `E0`'s class with no traceback of `E0`'s; when the class
     needs constructor arguments it is a new TypeError. -/
 def n1State (needsArgs : Bool) : St :=
-  ⟨⟨fun _ => .user 0 needsArgs true, fun _ => [], fun _ => none, 1⟩, [], [], .file⟩
+  ⟨⟨fun _ => .user 0 needsArgs true, fun _ => [], fun _ => none, fun _ => false, 1⟩, [], [], .file⟩
 
 def n1Body : Body := .handle 0 (.nest true (.forceReraise true))
 
@@ -434,7 +437,7 @@ theorem lemma_ext_trans {a b c : Heap} (h1 : Heap.ext a b) (h2 : Heap.ext b c) :
     · rw [k2 i h]; exact f1 i lo h
     · exact f2 i (by omega) hi
 
-theorem lemma_ext_fresh (s : St) (cl : Cls) (cause : Option ExcId) (f : Frame)
+theorem lemma_ext_fresh (s : St) (cl : Cls) (cause : Option (Option ExcId)) (f : Frame)
     (hc : cl = .runtimeError ∨ cl = .osError ∨ cl = .caused) :
     Heap.ext s.heap (s.raiseFresh cl cause f).1.heap := by
   refine ⟨?_, ?_, ?_⟩
@@ -665,7 +668,7 @@ theorem lemma_no_invention (b : Body) : ∀ (uf : Bool) (c : Sre) (s : St),
     generalize (match x with
       | some given => given
       | none => s.active) = cz
-    exact ⟨lemma_ext_trans (lemma_ext_fresh s .caused cz .rwc (Or.inr (Or.inr rfl)))
+    exact ⟨lemma_ext_trans (lemma_ext_fresh s .caused (some cz) .rwc (Or.inr (Or.inr rfl)))
       (lemma_ext_same _ _ rfl rfl), fun _ => hc⟩
   | nestThen fl body late ihb ihl =>
     intro uf c s _ hn hc
@@ -724,17 +727,245 @@ theorem no_invention_outside_N1 (b : Body) (c : Sre) (s : St)
     Heap.ext s.heap (exec b c s).st.heap :=
   (lemma_no_invention b false c s h1 h2 hc).1
 
+/-! ### nothing an exception carries is lost: class, `__cause__`, `__suppress_context__` -/
+
+/-- every object of `h` is still there in `h'` with its class, its `__cause__` and its
+    `__suppress_context__` -/
+def Heap.kept (h h' : Heap) : Prop :=
+  h.next ≤ h'.next ∧
+  ∀ i : Nat, i < h.next → h'.cls i = h.cls i ∧ h'.cause i = h.cause i ∧ h'.suppress i = h.suppress i
+
+theorem lemma_kept_same (h h' : Heap) (hn : h'.next = h.next) (hc : h'.cls = h.cls)
+    (hk : h'.cause = h.cause) (hs : h'.suppress = h.suppress) : Heap.kept h h' :=
+  ⟨by omega, fun i _ => by rw [hc, hk, hs]; exact ⟨rfl, rfl, rfl⟩⟩
+
+theorem lemma_kept_trans {a b c : Heap} (h1 : Heap.kept a b) (h2 : Heap.kept b c) : Heap.kept a c := by
+  obtain ⟨n1, k1⟩ := h1
+  obtain ⟨n2, k2⟩ := h2
+  refine ⟨by omega, fun i hi => ?_⟩
+  have a1 := k1 i hi
+  have a2 := k2 i (by omega)
+  exact ⟨a2.1.trans a1.1, a2.2.1.trans a1.2.1, a2.2.2.trans a1.2.2⟩
+
+theorem lemma_kept_alloc (h : Heap) (cl : Cls) (frm : Option (Option ExcId)) :
+    Heap.kept h (h.alloc cl frm).1 := by
+  refine ⟨by simp [Heap.alloc], fun i hi => ?_⟩
+  have : i ≠ h.next := by omega
+  simp [Heap.alloc, this]
+
+theorem lemma_kept_fresh (s : St) (cl : Cls) (frm : Option (Option ExcId)) (f : Frame) :
+    Heap.kept s.heap (s.raiseFresh cl frm f).1.heap :=
+  lemma_kept_trans (lemma_kept_alloc s.heap cl frm) (lemma_kept_same _ _ rfl rfl rfl rfl)
+
+theorem lemma_raiseSaved_kept (v : ExcId) (c : Sre) (s : St) : Heap.kept s.heap (raiseSaved v c s).1.heap := by
+  simp only [raiseSaved]
+  apply lemma_kept_same <;> (split <;> rfl)
+
+theorem lemma_force_kept (c : Sre) (s : St) : Heap.kept s.heap (force c s).1.heap := by
+  obtain ⟨rr, ty, v, tb⟩ := c
+  cases v with
+  | some v => simp only [force]; exact lemma_raiseSaved_kept v _ s
+  | none =>
+    cases ty with
+    | none => simp only [force]; exact lemma_kept_fresh s .runtimeError none .sreForce
+    | some cl =>
+      simp only [force]
+      split
+      · exact lemma_kept_fresh s .typeError none .sreForce
+      · exact lemma_kept_trans (lemma_kept_alloc s.heap cl none)
+          (lemma_raiseSaved_kept (s.heap.alloc cl none).2 _ { s with heap := (s.heap.alloc cl none).1 })
+
+theorem lemma_exitSre_kept (f : Frame) (c : Sre) (s : St) (o : Compl) :
+    Heap.kept s.heap (exitSre f c s o).1.heap := by
+  cases o with
+  | raised e => simp only [exitSre]; split <;> exact lemma_kept_same _ _ rfl rfl rfl rfl
+  | ok =>
+    simp only [exitSre]
+    split
+    · exact lemma_kept_trans (lemma_force_kept c s) (lemma_kept_same _ _ rfl rfl rfl rfl)
+    · exact lemma_kept_same _ _ rfl rfl rfl rfl
+
+theorem lemma_cmExit_kept (v : ExcId) (t : Tb) (x : ExcId) (s : St) :
+    Heap.kept s.heap (cmExit v t x s).1.heap := by
+  simp only [cmExit]; split <;> exact lemma_kept_same _ _ rfl rfl rfl rfl
+
+theorem lemma_callRemove_kept (rm : RemoveFn) (s : St) : Heap.kept s.heap (callRemove rm s).1.heap := by
+  cases rm with
+  | default =>
+    simp only [callRemove]
+    split
+    · exact lemma_kept_same _ _ rfl rfl rfl rfl
+    · exact lemma_kept_same _ _ rfl rfl rfl rfl
+    · exact lemma_kept_fresh s .osError none .delete
+  | noop => exact lemma_kept_same _ _ rfl rfl rfl rfl
+  | raises e => exact lemma_kept_same _ _ rfl rfl rfl rfl
+
+theorem lemma_rpoeExit_kept (rm : RemoveFn) (e : ExcId) (s : St) :
+    Heap.kept s.heap (rpoeExit rm e s).1.heap := by
+  simp only [rpoeExit]
+  split
+  · generalize hs2 : ({ s.through e .rpoeGen with excInfo := e :: (s.through e .rpoeGen).excInfo } : St) = s2
+    have h12 : Heap.kept s.heap s2.heap := by subst hs2; exact lemma_kept_same _ _ rfl rfl rfl rfl
+    have hrm := lemma_callRemove_kept rm s2
+    generalize callRemove rm s2 = cr at hrm ⊢
+    have h33 : Heap.kept cr.1.heap (removeOut cr.1 cr.2).heap := by
+      cases cr.2 <;> exact lemma_kept_same _ _ rfl rfl rfl rfl
+    have hex := lemma_exitSre_kept .rpoeGen (enter (Sre.init true) s2) (removeOut cr.1 cr.2) cr.2
+    generalize exitSre .rpoeGen (enter (Sre.init true) s2) (removeOut cr.1 cr.2) cr.2 = ex at hex ⊢
+    obtain ⟨s4, out⟩ := ex
+    simp only at hex ⊢
+    have h04 := lemma_kept_trans h12 (lemma_kept_trans hrm (lemma_kept_trans h33 hex))
+    cases out with
+    | ok => exact lemma_kept_trans h04 (lemma_kept_same _ _ rfl rfl rfl rfl)
+    | raised x =>
+      exact lemma_kept_trans h04
+        (lemma_cmExit_kept e (s.heap.tb e) x { s4 with excInfo := (s.through e .rpoeGen).excInfo })
+  · exact lemma_kept_trans (lemma_kept_same _ _ rfl rfl rfl rfl)
+      (lemma_cmExit_kept e (s.heap.tb e) e (s.through e .rpoeGen))
+
+theorem lemma_filterExit_kept (fl : Filter) (s : St) (o : Compl) :
+    Heap.kept s.heap (filterExit fl s o).1.heap := by
+  cases o with
+  | ok => exact lemma_kept_same _ _ rfl rfl rfl rfl
+  | raised e =>
+    simp only [filterExit, callPred]
+    cases fl.shouldIgnore e <;> exact lemma_kept_same _ _ rfl rfl rfl rfl
+
+theorem lemma_filterCall_kept (fl : Filter) (e : ExcId) (s : St) :
+    Heap.kept s.heap (filterCall fl e s).1.heap := by
+  simp only [filterCall, callPred]
+  generalize s.activeTb = tbk
+  cases fl.shouldIgnore e
+  · exact lemma_kept_same _ _ rfl rfl rfl rfl
+  · simp only
+    split
+    · by_cases hq : s.heap.tb e = tbk
+      · simp only [hq, ne_eq, not_true_eq_false, if_false]; exact lemma_kept_same _ _ rfl rfl rfl rfl
+      · simp only [hq, ne_eq, not_false_eq_true, if_true]; exact lemma_kept_same _ _ rfl rfl rfl rfl
+    · exact lemma_kept_same _ _ rfl rfl rfl rfl
+  · exact lemma_kept_same _ _ rfl rfl rfl rfl
+
+/-- **Re-raising preserves the chain** (and everything else never touches it): for every program, every
+    context and every state, each exception object that existed before is still there afterwards with the
+    same class, the same `__cause__` and the same `__suppress_context__` — whether it was re-raised by
+    `__exit__`, by a direct or late `force_reraise()`, by `remove_path_on_error`, by `exception_filter`, or
+    not at all.  (Only a brand-new exception made by `raise_with_cause` gets a cause.) -/
+theorem exec_preserves_chain (b : Body) (c : Sre) (s : St) : Heap.kept s.heap (exec b c s).st.heap := by
+  induction b generalizing c s with
+  | nop => exact lemma_kept_same _ _ rfl rfl rfl rfl
+  | raiseCatch e => exact lemma_kept_same _ _ rfl rfl rfl rfl
+  | raiseNew e => exact lemma_kept_same _ _ rfl rfl rfl rfl
+  | setReraise b => exact lemma_kept_same _ _ rfl rfl rfl rfl
+  | nest fl body ih =>
+    simp only [exec]
+    exact lemma_kept_trans (ih _ _) (lemma_exitSre_kept _ _ _ _)
+  | forceReraise caught =>
+    simp only [exec]
+    exact lemma_kept_trans (lemma_force_kept c s) (lemma_kept_same _ _ rfl rfl rfl rfl)
+  | capture =>
+    simp only [exec, Oslo.Exc.capture]
+    cases h : s.active with
+    | none =>
+      simp only [if_true]
+      exact lemma_kept_trans (lemma_kept_fresh s .runtimeError none .sreCapture)
+        (lemma_kept_same _ _ rfl rfl rfl rfl)
+    | some a => exact lemma_kept_same _ _ rfl rfl rfl rfl
+  | seq a b iha ihb =>
+    simp only [exec]
+    split
+    · exact lemma_kept_trans (iha c s) (ihb _ _)
+    · exact iha c s
+  | handle e h ih =>
+    simp only [exec]
+    exact lemma_kept_trans (lemma_kept_same _ _ rfl rfl rfl rfl)
+      (lemma_kept_trans (ih c { s.through e .scen with excInfo := e :: (s.through e .scen).excInfo })
+        (lemma_kept_same _ _ rfl rfl rfl rfl))
+  | filterCtx form p body ih =>
+    simp only [exec]
+    exact lemma_kept_trans (ih c s) (lemma_filterExit_kept _ _ _)
+  | filterCall form p e =>
+    simp only [exec]
+    exact lemma_filterCall_kept _ _ _
+  | rpoe rm body ih =>
+    simp only [exec]
+    split
+    · exact ih c s
+    · simp only []
+      exact lemma_kept_trans (ih c s) (lemma_rpoeExit_kept _ _ _)
+  | rwc x =>
+    simp only [exec]
+    exact lemma_kept_trans (lemma_kept_fresh s .caused _ .rwc) (lemma_kept_same _ _ rfl rfl rfl rfl)
+  | nestThen fl body late ihb ihl =>
+    simp only [exec]
+    have h1 := lemma_kept_trans (ihb (enter (Sre.init fl) s) s)
+      (lemma_exitSre_kept .scen (exec body (enter (Sre.init fl) s) s).ctx (exec body (enter (Sre.init fl) s) s).st
+        (exec body (enter (Sre.init fl) s) s).out)
+    split
+    · simp only []
+      exact lemma_kept_trans h1 (ihl _ _)
+    · exact h1
+  | handleNestThen e fl body late ihb ihl =>
+    simp only [exec]
+    generalize hsh : ({ s.through e .scen with excInfo := e :: (s.through e .scen).excInfo } : St) = sh
+    have h0 : Heap.kept s.heap sh.heap := by subst hsh; exact lemma_kept_same _ _ rfl rfl rfl rfl
+    have h1 := lemma_kept_trans h0
+      (lemma_kept_trans (ihb (enter (Sre.init fl) sh) sh)
+        (lemma_exitSre_kept .scen (exec body (enter (Sre.init fl) sh) sh).ctx
+          (exec body (enter (Sre.init fl) sh) sh).st (exec body (enter (Sre.init fl) sh) sh).out))
+    generalize exec body (enter (Sre.init fl) sh) sh = r at h1 ⊢
+    generalize exitSre .scen r.ctx r.st r.out = ex at h1 ⊢
+    split
+    · simp only []
+      exact lemma_kept_trans h1 (ihl _ { ex.1 with excInfo := s.excInfo })
+    · exact lemma_kept_trans h1 (lemma_kept_same _ _ rfl rfl rfl rfl)
+
+/-- in particular the original re-raised by `with save_and_reraise_exception()` (any body, any way the
+    statement ends) still has its `__cause__` and `__suppress_context__` -/
+theorem sre_reraise_preserves_chain (fl : Bool) (body : Body) (c : Sre) (s : St) (e₀ : ExcId)
+    (he : e₀ < s.heap.next) :
+    (exec (.nest fl body) c s).st.heap.cause e₀ = s.heap.cause e₀ ∧
+    (exec (.nest fl body) c s).st.heap.suppress e₀ = s.heap.suppress e₀ ∧
+    (exec (.nest fl body) c s).st.heap.cls e₀ = s.heap.cls e₀ :=
+  let h := (exec_preserves_chain (.nest fl body) c s).2 e₀ he
+  ⟨h.2.1, h.2.2, h.1⟩
+
 /-! ### exception_filter -/
 
-/-- `__get__`: the filter reached through an instance calls the method with that instance -/
-theorem filter_get_binds {σ : Type} (d : FilterDesc σ) (obj : σ) (e : ExcId) :
-    (d.get obj).shouldIgnore e = d.fn obj e := rfl
+/-- **`__get__` binds what it is looked up through.**  The filter obtained through instance `obj` of
+    class `owner` calls an instance method with that very `obj`, a class method with that `owner`, a static
+    method as it is — it does not depend on any other instance or on earlier lookups. -/
+theorem filter_get_binds {σ κ : Type} (obj : σ) (owner : κ) (e : ExcId)
+    (fm : σ → ExcId → PredRes) (fc : κ → ExcId → PredRes) (fs : ExcId → PredRes) :
+    (filterGet (.method fm : Wrapped σ κ) obj owner).shouldIgnore e = fm obj e ∧
+    (filterGet (.classMethod fc : Wrapped σ κ) obj owner).shouldIgnore e = fc owner e ∧
+    (filterGet (.staticMethod fs : Wrapped σ κ) obj owner).shouldIgnore e = fs e :=
+  ⟨rfl, rfl, rfl⟩
+
+/-- every way of making and reaching the filter (function, instance method, classmethod / staticmethod
+    through the class or an instance) behaves like the function-made filter with the table that the
+    instance / class / closure holds -/
+theorem filter_form_irrelevant (form : FilterForm) (p : Pred) (body : Body) (e : ExcId) (c : Sre) (s : St) :
+    exec (.filterCtx form p body) c s = exec (.filterCtx .func p body) c s ∧
+    exec (.filterCall form p e) c s = exec (.filterCall .func p e) c s := by
+  simp [exec, lemma_mkFilter_eq]
+
+/-- two instances of one class used interleaved (`with a.filt: with b.filt: raise e`): the inner
+    statement is decided by `b`'s own table and the outer one by `a`'s -/
+theorem filter_instances_independent (pa pb : Pred) (e : ExcId) (c : Sre) (s : St) :
+    (pb.eval e = .accept →
+      (exec (.filterCtx .method pa (.filterCtx .method pb (.raiseNew e))) c s).out = .ok) ∧
+    (pb.eval e = .reject → pa.eval e = .accept →
+      (exec (.filterCtx .method pa (.filterCtx .method pb (.raiseNew e))) c s).out = .ok) ∧
+    (pb.eval e = .reject → pa.eval e = .reject →
+      (exec (.filterCtx .method pa (.filterCtx .method pb (.raiseNew e))) c s).out = .raised e) := by
+  refine ⟨fun h => ?_, fun h1 h2 => ?_, fun h1 h2 => ?_⟩ <;>
+    simp [exec, filterExit, callPred, lemma_mkFilter, *]
 
 /-- **filter_exact** (context-manager form, function-made and bound-method filters alike): for every
     body, the `with filt:` statement ends normally iff the body did or the predicate accepts what the
     body raised; a rejected exception comes out as the same object with the state — its traceback
     included — exactly as the body left it; an exception raised by the predicate replaces it. -/
-theorem filter_exact (bound : Bool) (p : Pred) (body : Body) (c : Sre) (s : St) :
+theorem filter_exact (bound : FilterForm) (p : Pred) (body : Body) (c : Sre) (s : St) :
     ((exec body c s).out = .ok → exec (.filterCtx bound p body) c s = exec body c s) ∧
     (∀ e, (exec body c s).out = .raised e → p.eval e = .accept →
         exec (.filterCtx bound p body) c s = ⟨(exec body c s).st, (exec body c s).ctx, .ok⟩) ∧
@@ -753,7 +984,7 @@ theorem filter_exact (bound : Bool) (p : Pred) (body : Body) (c : Sre) (s : St) 
   · intro e x h hp
     simp [exec, filterExit, callPred, lemma_mkFilter, h, hp, St.through, Heap.through, Heap.setTb]
 
-theorem filter_suppresses_iff (bound : Bool) (p : Pred) (body : Body) (c : Sre) (s : St) :
+theorem filter_suppresses_iff (bound : FilterForm) (p : Pred) (body : Body) (c : Sre) (s : St) :
     (exec (.filterCtx bound p body) c s).out = .ok ↔
       ((exec body c s).out = .ok ∨ ∃ e, (exec body c s).out = .raised e ∧ p.eval e = .accept) := by
   simp only [exec, filterExit, callPred, lemma_mkFilter]
@@ -764,7 +995,7 @@ theorem filter_suppresses_iff (bound : Bool) (p : Pred) (body : Body) (c : Sre) 
 /-- **filter_exact**, direct-call form `filt(ex)`: accepted → returns and changes nothing; rejected →
     raises `ex` itself, with its own traceback under the frames `__call__` and scenario (whether or
     not `ex` is the exception being handled); nothing else changes. -/
-theorem filter_call_exact (bound : Bool) (p : Pred) (e : ExcId) (c : Sre) (s : St) :
+theorem filter_call_exact (bound : FilterForm) (p : Pred) (e : ExcId) (c : Sre) (s : St) :
     (p.eval e = .accept → exec (.filterCall bound p e) c s = ⟨s, c, .ok⟩) ∧
     (p.eval e = .reject →
         (exec (.filterCall bound p e) c s).out = .raised e ∧
@@ -862,6 +1093,7 @@ theorem rwc_cause_is_active (explicit : Option (Option ExcId)) (c : Sre) (s : St
       (match explicit with
        | some given => given
        | none => s.active) ∧
+    (exec (.rwc explicit) c s).st.heap.suppress s.heap.next = true ∧
     (exec (.rwc explicit) c s).st.heap.cls s.heap.next = .caused ∧
     (exec (.rwc explicit) c s).st.heap.tb s.heap.next = [.scen, .rwc] ∧
     (∀ i, i ≠ s.heap.next → (exec (.rwc explicit) c s).st.heap.tb i = s.heap.tb i) := by
@@ -874,7 +1106,8 @@ theorem rwc_cause_is_active (explicit : Option (Option ExcId)) (c : Sre) (s : St
 /-- E0 plain with a prior traceback, E1 needs constructor arguments, E2 is BaseException-only -/
 def demoState : St :=
   ⟨⟨fun i => if i = 0 then .user 0 false true else if i = 1 then .user 1 true true else .user 2 false false,
-    fun i => if i = 0 then [.prior 1, .prior 0] else [], fun _ => none, 3⟩, [], [], .file⟩
+    fun i => if i = 0 then [.prior 1, .prior 0] else [], fun i => if i = 0 then some 2 else none,
+    fun i => i = 0, 3⟩, [], [], .file⟩
 
 /-- a body that re-raises E0 itself and catches it, raises-and-catches E1 inside an inner handler with a
     nested context that is switched off, toggles the flag off and on again — no direct operation -/
@@ -943,11 +1176,11 @@ example : demoState.active = none ∧ (run true (.handle 0 (.seq .capture (.forc
 example :
     let p : Pred := ⟨[1], [(2, 0)]⟩
     p.eval 1 = .accept ∧ p.eval 0 = .reject ∧ p.eval 2 = .raises 0 ∧
-    (run true (.filterCtx true p (.raiseNew 1)) demoState).out = .ok ∧
-    (run true (.filterCtx false p (.raiseNew 0)) demoState).out = .raised 0 ∧
-    (run true (.filterCtx true p (.raiseNew 2)) demoState).out = .raised 0 ∧
-    (run true (.handle 1 (.filterCall true p 0)) demoState).out = .raised 0 ∧
-    (run true (.handle 1 (.filterCall true p 0)) demoState).st.heap.tb 0
+    (run true (.filterCtx .method p (.raiseNew 1)) demoState).out = .ok ∧
+    (run true (.filterCtx .func p (.raiseNew 0)) demoState).out = .raised 0 ∧
+    (run true (.filterCtx (.classMethod true) p (.raiseNew 2)) demoState).out = .raised 0 ∧
+    (run true (.handle 1 (.filterCall (.staticMethod false) p 0)) demoState).out = .raised 0 ∧
+    (run true (.handle 1 (.filterCall .method p 0)) demoState).st.heap.tb 0
       = [.scen, .filtCall, .prior 1, .prior 0] := by
   decide
 
